@@ -63,6 +63,9 @@ def gen_cases(rnd, thorough):
             cases.append(("from_iter!(flat_map pair)", "konst::string::from_iter!(&%s, flat_map(|s| &[*s, \"-\"]))" % typed_arr, "%s.iter().flat_map(|s| [*s, \"-\"]).collect::<String>()" % typed_arr, "pieces=%r" % (lst,)))
     # char element kinds
     chars = ["a", "ñ", "個", "🙂", "\\0"]
+    # one char at every bit-width boundary of the code point (length formulas are written over those)
+    edge_chars = ["\\u{7f}", "\\u{80}", "\\u{3ff}", "\\u{400}", "\\u{7ff}", "\\u{800}", "\\u{fff}", "\\u{1000}", "\\u{7fff}", "\\u{8000}", "\\u{d7ff}", "\\u{e000}", "\\u{ffff}", "\\u{10000}", "\\u{1ffff}",
+                  "\\u{20000}", "\\u{fffff}", "\\u{100000}", "\\u{10ffff}"]
     clists = []
     for n in range(0, 4):
         clists.extend(itertools.product(chars, repeat=n))
@@ -71,6 +74,15 @@ def gen_cases(rnd, thorough):
             arr = "([%s] as [char; %d])" % (", ".join("'%s'" % c for c in lst), len(lst))
             cases.append(("str_concat!(&[char])", "konst::string::str_concat!(&%s)" % arr, "%s.iter().collect::<String>()" % arr, "chars=%r" % (lst,)))
             cases.append(("from_iter!(&[char])", "konst::string::from_iter!(&%s, copied())" % arr, "%s.iter().collect::<String>()" % arr, "chars=%r" % (lst,)))
+    for c in edge_chars:
+        for lst in ((c,), ("a", c), (c, c, "ñ")):
+            arr = "([%s] as [char; %d])" % (", ".join("'%s'" % x for x in lst), len(lst))
+            cases.append(("str_concat!(&[char])", "konst::string::str_concat!(&%s)" % arr, "%s.iter().collect::<String>()" % arr, "chars=%r" % (lst,)))
+            cases.append(("from_iter!(&[char])", "konst::string::from_iter!(&%s, copied())" % arr, "%s.iter().collect::<String>()" % arr, "chars=%r" % (lst,)))
+        pieces = '(["x", "", "yz"] as [&str; 3])'
+        cases.append(("str_join!(char sep)", "konst::string::str_join!('%s', &%s)" % (c, pieces), "%s.join(&'%s'.to_string())" % (pieces, c), "sep=%s pieces=x,,yz" % c))
+        cases.append(("str_join!(&char sep)", "konst::string::str_join!(&'%s', &%s)" % (c, pieces), "%s.join(&'%s'.to_string())" % (pieces, c), "sep=&%s pieces=x,,yz" % c))
+        cases.append(("str_join!(str sep)", "konst::string::str_join!(\"%s\", &%s)" % (c, pieces), "%s.join(\"%s\")" % (pieces, c), "sep=str %s pieces=x,,yz" % c))
     for rng, rev in (("'a'..='e'", False), ("'\\u{D7FE}'..='\\u{E001}'", False), ("'x'..'x'", False), ("'a'..='e'", True)):
         cases.append(("from_iter!(char range)", "konst::string::from_iter!(%s%s)" % (rng, ", rev()" if rev else ""), "(%s)%s.collect::<String>()" % (rng, ".rev()" if rev else ""), rng))
     # slice_concat!
